@@ -335,7 +335,7 @@ pub fn run(seed: u64, count: usize, outdir: &str) -> std::io::Result<i32> {
                 if !nan_inside && canon_bits(direct) != canon_bits(*want) { bad.push(format!("kind=value-differs-from-direct-evaluation shape {} direct {}", want, direct)); }
                 if !nan_inside {
                     match catch_unwind(AssertUnwindSafe(|| eval_point::<JitFunction>(&c))) {
-                        Ok(Ok(j)) => if canon_bits(j) != canon_bits(*want) && !(j == 0.0 && *want == 0.0) { bad.push(format!("kind=jit-point-differs jit {} vm {}", j, want)); },
+                        Ok(Ok(j)) => if canon_bits(j) != canon_bits(*want) && !(j == 0.0 && *want == 0.0) && !zero_open(&c) { bad.push(format!("kind=jit-point-differs jit {} vm {}", j, want)); },
                         Ok(Err(_)) => bad.push("kind=jit-missing jit reports a missing variable".into()),
                         Err(_) => bad.push("kind=jit-panic".into()),
                     }
